@@ -53,7 +53,14 @@ def value_to_json(value: object) -> object:
         return value
     if isinstance(value, int):
         if value < MIN_INTEGER or value > MAX_INTEGER:
-            return {"int": str(value)}
+            try:
+                return {"int": str(value)}
+            except ValueError:
+                # Interpreters with a limit on int <-> decimal string conversion
+                # (sys.set_int_max_str_digits) refuse very long ints, which a
+                # hex literal in the source can still produce. Hexadecimal
+                # conversion has no such limit.
+                return {"int": hex(value)}
         return value
     if isinstance(value, str):
         try:
@@ -198,7 +205,8 @@ def constant_value_from_json(value: object) -> object:
     """
     if isinstance(value, dict):
         if "int" in value:
-            return int(value["int"])
+            # base 0: decimal, or hexadecimal for ints too long for decimal
+            return int(value["int"], 0)
         if "float" in value:
             v = value["float"]
             if v == "inf":
